@@ -570,6 +570,8 @@ Definition prop_owner (name : bytes) : list string :=
   else if bytes_eqb name (bs "error-positions") then ["C15"%string]
   else if bytes_eqb name (bs "accepted-valid") then ["C04"%string]
   else if bytes_eqb name (bs "write-fault") then ["C08"%string]
+  else if bytes_eqb name (bs "wrap-agree") then ["C04"; "C09"]%string
+  else if bytes_eqb name (bs "write-after-edit") then ["C06"%string]
   else if bytes_eqb name (bs "text-reread") then ["C02"%string]
   else if bytes_eqb name (bs "http-status-documented") || bytes_eqb name (bs "http-error-body-json") || bytes_eqb name (bs "http-log-isolation")
           || bytes_eqb name (bs "http-race-free") || bytes_eqb name (bs "http-no-panic") then ["C18"%string]
@@ -593,7 +595,7 @@ Definition oracle_read (pid : bytes) (args : list bytes) : option bytes :=
   | [_; _; final; text; _] =>
       if pid_is pid "C08" then (if bytes_eqb final (bs "eof") then None else Some (bs "reject"))
       else if pid_is pid "C03" then Some (bs "no-panic")
-      else if pid_is pid "C04" then (if has_unknown_marker text then Some (bs "reject") else None)
+      else if pid_is pid "C04" then (if has_unknown_marker (drop_lf (drop_crlf text)) then Some (bs "reject") else None)
       else None
   | _ => None
   end.
